@@ -10,6 +10,9 @@ handed a value of an undeclared type by the dict-document protocols:
   * the ComplexModelBase branch of ``HierDictDocument._from_dict_value``:
     whether a null member document (object or array) goes to ``_doc_to_object``
     (whose answer to None is ``[]``) or is read as None;
+  * the statement order at the head of ``_from_dict_value``: XmlAttribute /
+    XmlData unwrapped before ``self.validate`` looks at the class, or after
+    (then validate sees a wrapper class and checks nothing);
   * (decides no type, kept for the fidelity of the model) whether MessagePack's
     ``integer_from_bytes`` refuses lists and maps.
 
@@ -154,13 +157,26 @@ def generate(repo):
     if len(hits) != 1:
         raise TranslateError('hier._from_dict_value: expected exactly one "issubclass(cls, ComplexModelBase)" branch')
     nul = which([_dump(s) for s in hits[0].body], COMPLEX_BRANCH, 'hier._from_dict_value (ComplexModelBase branch)')
+    # statement order at the head of _from_dict_value: unwrap XmlAttribute / XmlData, then validate
+    head = [_dump(x) for x in _strip_doc(fdv.body)[:2]]
+    unwrap = _dump(ast.parse("if issubclass(cls, XmlModifier):\n    cls = cls.type\n").body[0])
+    valid = _dump(ast.parse("if validator is self.SOFT_VALIDATION:\n    self.validate(key, cls, inst)\n").body[0])
+    if head == [unwrap, valid]:
+        unw = 'true'
+    elif head == [valid, unwrap] or head[0] == valid and unwrap not in [_dump(x) for x in ast.walk(fdv) if isinstance(x, ast.If)]:
+        unw = 'false'
+    else:
+        raise TranslateError('hier._from_dict_value does not start with the XmlModifier unwrapping and the validate() call')
+    n_val = sum(1 for x in ast.walk(fdv) if isinstance(x, ast.Call) and _dump(x.func) == _dump(ast.parse('self.validate', mode='eval').body))
+    if n_val != 1:
+        raise TranslateError('hier._from_dict_value calls self.validate %d times' % n_val)
     d2o = find_function(tree, ['HierDictDocument', '_doc_to_object'])
     first = _strip_doc(d2o.body)[0]
     if _dump(first) != _dump(ast.parse("if doc is None:\n    return []\n").body[0]):
         raise TranslateError('hier._doc_to_object does not start with "if doc is None: return []"')
     rows = []
     for mod, ctor in (('json', 'PJson'), ('yaml', 'PYaml'), ('msgpack', 'PMsgpack')):
-        rows.append('  | %s => mkleafcfg %s %s %s %s' % (ctor, flags[mod][0], flags[mod][1], nul, flags[mod][2]))
+        rows.append('  | %s => mkleafcfg %s %s %s %s %s' % (ctor, flags[mod][0], flags[mod][1], nul, unw, flags[mod][2]))
     text = ('(* generated by harness/translate/dictleaf.py from spyne/protocol/{json,yaml,msgpack}.py and '
             'spyne/protocol/dictdoc/hier.py -- do not edit *)\n'
             'From SpyneV Require Import C04.Guard C04.DictModel.\n\n'
